@@ -1,14 +1,17 @@
 #!/bin/bash
-# usage: tools/try_mutant.sh <seeded id> <check id> [<check id> ...]   -- applies seeded/<id>/patch.diff to /repo, runs checks, reverts
+# usage: tools/try_mutant.sh <seeded id> <check id> [<check id> ...]
+# applies seeded/<id>/patch.diff in a private scratch worktree of /repo (never in /repo itself), runs the
+# checks against it through VERIF_REPO, and removes the worktree.  Safe to run concurrently.
 m=$1; shift
-cd /repo || exit 9
-if ! git diff --quiet; then echo "/repo has uncommitted changes"; exit 9; fi
-if ! git apply --check /verif/seeded/$m/patch.diff 2>/dev/null; then echo "PATCH-DOES-NOT-APPLY $m"; exit 8; fi
-git apply /verif/seeded/$m/patch.diff
+wt=/tmp/mutwt_${m}_$$
+git -C /repo worktree prune
+git -C /repo worktree add -q --detach $wt HEAD || exit 9
+if ! git -C $wt apply --check /verif/seeded/$m/patch.diff 2>/dev/null; then echo "PATCH-DOES-NOT-APPLY $m"; git -C /repo worktree remove --force $wt; exit 8; fi
+git -C $wt apply /verif/seeded/$m/patch.diff
 cd /verif
 for c in "$@"; do
-  out=$(timeout 900 ./check $c --tier quick 2>&1); rc=$?
+  out=$(VERIF_REPO=$wt timeout 1200 ./check $c --tier quick 2>&1); rc=$?
   echo "mutant=$m check=$c rc=$rc :: $(echo "$out" | grep -c '^VIOLATION') violation line(s); $(echo "$out" | grep '^VIOLATION' | head -2 | tr '\n' ' ')"
   echo "$out" | tail -1
 done
-git -C /repo checkout -- . 
+git -C /repo worktree remove --force $wt
